@@ -6,6 +6,7 @@ import (
 	"context"
 
 	"github.com/ory/keto/internal/check/checkgroup"
+	"github.com/ory/keto/ketoapi"
 )
 
 func bothOrNeither(a, b bool) bool {
@@ -303,5 +304,33 @@ func HarnessC14Isolation() {
 	verifReach("c14.concurrent")
 	verifAssert(sameDecision(r1, alone1), "C14: a check returns a different answer when another check runs concurrently")
 	verifAssert(sameDecision(r2, alone2), "C14: a check returns a different answer when another check runs concurrently")
+	closeDeps(deps)
+}
+
+// HarnessC14Batch: the entries of one batch check (which run concurrently and
+// share the request context) each get the answer the same check gets alone.
+func HarnessC14Batch() {
+	w, qo, qr, qs := symWorld()
+	nRel := len(w.shape.rels)
+	qo2, qr2 := qo, qr
+	if verifChoice(2) == 1 {
+		qo2, qr2 = verifChoice(w.nObj), verifChoice(nRel)
+	}
+	deps := newDeps(w)
+	e := newEngine(deps)
+	ctx := context.Background()
+	alone1 := e.CheckRelationTuple(ctx, w.tuple(qo, qr, qs), 0)
+	alone2 := e.CheckRelationTuple(ctx, w.tuple(qo2, qr2, qs), 0)
+	if verifLimitHit {
+		return
+	}
+	res, err := e.BatchCheck(ctx, []*ketoapi.RelationTuple{w.apiTuple(qo, qr, qs), w.apiTuple(qo2, qr2, qs)}, 0)
+	verifReach("c14.batch")
+	if err != nil || len(res) != 2 {
+		verifFail("C14: a batch check of two well-formed entries fails as a whole or does not return one result per entry")
+		return
+	}
+	verifAssert(sameDecision(res[0], alone1), "C14: a batch entry gets a different answer than the same check alone")
+	verifAssert(sameDecision(res[1], alone2), "C14: a batch entry gets a different answer than the same check alone")
 	closeDeps(deps)
 }
